@@ -51,3 +51,25 @@ for pid, rule in [
     ("C20", "seeded histories interleaving resolver updates with growth and refreshes; non-trivial = a replacement/growth connection's address list or a resolver error was checked; distinct = hash of the op log"),
 ]:
     PROPS[pid] = dict(level="exploration", rule=rule, assumptions=POOL_ASSUME, stages=[poolsim_stage()])
+
+NOT_APPLICABLE = {}
+
+_POOL_NOTE = ("Trusted: the harness's shadow of the contract, the fake ClientConn/SubConn (gRPC 1.56 calling discipline), the build-time "
+              "time.Now rewrite, Go runtime goroutine-state reporting for the deadlock/wait classification. Held = held on the histories this run generated.")
+MANIFEST_TEXT = {
+    "C01": dict(technique="runtime monitoring: shadow-model oracle over observed Pick/Done/NewSubConn events of generated pool histories",
+                design_ref="DESIGN.md §4, §5 C01",
+                level_text="Exploration: thousands of seeded random pool histories (configs x resolver updates, state reports, picks on current and stale pickers, completions, refreshes under a virtual clock) run against the real balancer/picker; every keyed pick is compared with the binding shadow (home READY => home channel; fallback off => wait), including after connection refreshes.",
+                level_note=_POOL_NOTE),
+}
+for _p in ["C02", "C03", "C04", "C05", "C06", "C07", "C08", "C09", "C20"]:
+    MANIFEST_TEXT[_p] = dict(MANIFEST_TEXT["C01"])
+MANIFEST_TEXT["C02"].update(design_ref="DESIGN.md §4, §5 C02", level_text="Exploration: every unkeyed placement of every generated history is checked to be on a channel of the picker's snapshot with minimal in-flight count (harness's own count); the balancer's active-stream counters are compared with placements minus completions after every op and must be zero at quiescence; completions in any order/outcome, after refresh, after the channel left READY.")
+MANIFEST_TEXT["C03"].update(design_ref="DESIGN.md §4, §5 C03", level_text="Exploration: NewSubConn/RemoveSubConn calls observed at the fake ClientConn are attributed to the op in progress; initial size, growth preconditions (saturated, below max, nothing idle/connecting => exactly one attempt and the call waits), the maxSize bound and the 'only the old connection of a completed refresh is removed' rule are checked on every op of every generated history.")
+MANIFEST_TEXT["C04"].update(design_ref="DESIGN.md §4, §5 C04", level_text="Exploration: fault sequences of state reports (legal walks, arbitrary jumps, repeats, reports for unknown/retired/replacement connections, shutdowns) interleaved with refreshes; after every op the last published state is compared with the aggregate of the shadow pool, every pick checks TRANSIENT_FAILURE <=> fail-fast picker, every report checks publish-on-readiness-change / TF-boundary and no publish for ignored reports.")
+MANIFEST_TEXT["C05"].update(design_ref="DESIGN.md §4, §5 C05", level_text="Exploration: hostile histories (malformed requests/replies, missing interceptor context, unknown methods, arbitrary and repeated state reports incl. for unknown/removed/orphan connections, shutdowns in any order, failing factory, stale pickers, completions after shutdown/refresh) with recover() around every call; a panic's signature is kind@innermost repo function.")
+MANIFEST_TEXT["C06"].update(design_ref="DESIGN.md §3.4, §5 C06", level_text="Exploration: every operation runs in its own goroutine and its ending is classified from runtime goroutine state (done / parked in select / blocked on a mutex for >300ms with identical stack = deadlock / 10000 consecutive failing NewSubConn = spin); balancer and picker locks are probed with TryLock after every op; RR BIND waiters are released by READY / context end and must return; hard states (empty resolve, failing factory, emptied pool, saturated fallback) are steered to.")
+MANIFEST_TEXT["C07"].update(design_ref="DESIGN.md §4, §5 C07", level_text="Exploration under a virtual clock: an exact per-channel detector model (last response instant, DE count, 2^k window, refreshing flag) predicts for every completion whether exactly one replacement NewSubConn must be observed; completion instants are steered to window-1ns/window/window+1ns; failed replacement attempts, swap (exactly one RemoveSubConn(old)), detection disabled => never.")
+MANIFEST_TEXT["C08"].update(design_ref="DESIGN.md §4, §5 C08", level_text="Exploration: with fallback enabled, every keyed pick on the current picker whose home is not READY must be placed on a READY channel whenever one exists (also saturated, also after the stand-in was refreshed) and must reuse the recorded stand-in while it stays READY; home recovery sends the key home (C01 rule); bindings never change.")
+MANIFEST_TEXT["C09"].update(design_ref="DESIGN.md §4, §5 C09", level_text="Exploration: under ROUND_ROBIN every BIND pick must go to the successor (creation order, cyclic) of the previous BIND's channel while the pool composition is unchanged, must be READY on return unless its context ended; waiting picks are observed parked (goroutine state), released by READY/refresh/cancel/virtual deadline and must then return their assigned channel.")
+MANIFEST_TEXT["C20"].update(design_ref="DESIGN.md §4, §5 C20", level_text="Exploration: the fake SubConns record the last address list given (creation or UpdateAddresses) and Connect calls; after every resolver update every pool connection must carry the latest list and have been asked to connect; connections created by growth or refresh must be created with the latest list; a replacement must carry the latest list when it takes over; ResolverError must cause no boundary call.")
